@@ -104,7 +104,11 @@ def run(ctx):
     cr_obls, cr_stale = corner_reads()
     if not cr_obls and not cr_stale:
         raise core.CheckerBroken("no get_initial_regions found in ffuncs.py")
-    sym, sym_s = symdiff.run(ctx.tier)
+    try:
+        sym, sym_s = symdiff.run(ctx.tier)
+    except symdiff.Stale as e:
+        sym, sym_s = [], 0.0
+        cr_stale.append(("ccubes.ccube._compute_common_cells_from_marginal_diffs", str(e)))
     mon, totals = runner.run_sharded(drive_encoding.work, ctx.tier, extra=int(ctx.seed))
     for name, ok_, text in cr_obls:
         if not ok_:
